@@ -212,6 +212,11 @@ struct World {
     next_pub: u32,
     log: Vec<Value>,
     memory: bool,
+    /// per CA: the identity key and the certificate key of a child of it
+    /// that is not hosted here ("remote"), whose provisioning requests come
+    /// in as signed messages
+    remote: BTreeMap<String, (rpki::crypto::KeyIdentifier,
+                              rpki::crypto::KeyIdentifier)>,
 }
 
 impl World {
@@ -564,6 +569,7 @@ impl World {
                 ).map(|_| "ok".into()).map_err(|e| e.to_string());
                 if res.is_ok() {
                     self.expect.remove(&info.name);
+                    self.remote.remove(&info.name);
                 }
                 if info.parent != "ta" {
                     let removed = krill!().ca_manager().ca_child_remove(
@@ -622,6 +628,116 @@ impl World {
                 }
                 Err(e) => Err(format!("RESTART FAILED {e}")),
             };
+        }
+        else if pick < 94 {
+            // a child that is not hosted here: added, then its requests
+            // (list, issue without / with a resource limit, revoke) as
+            // signed RFC 6492 messages
+            use rpki::ca::provisioning::{
+                self, IssuanceRequest, RequestResourceLimit,
+                RevocationRequest,
+            };
+            let i = self.rng.below(self.cas.len() as u64) as usize;
+            let parent = self.cas[i].name.clone();
+            let (v4, lim4) = if self.cas[i].level == 1 {
+                (format!("{}.250.0.0/16", self.cas[i].block),
+                 format!("{}.250.0.0/17", self.cas[i].block))
+            } else {
+                (format!("{}.64.0/18", self.cas[i].block),
+                 format!("{}.64.0/19", self.cas[i].block))
+            };
+            let handle = setup::ca_handle(&parent);
+            let child = ChildHandle::from_str("remote").unwrap();
+            let choice = self.rng.below(5);
+            let krill = self.env().krill.clone();
+            if !self.remote.contains_key(&parent) {
+                what = format!("remote_add under {parent} {v4}");
+                res = (|| {
+                    let id_cert = krill.signer()
+                        .create_self_signed_id_cert()
+                        .map_err(|e| e.to_string())?;
+                    let id_key = id_cert.public_key().key_identifier();
+                    let ca_key = krill.signer().create_key()
+                        .map_err(|e| e.to_string())?;
+                    krill.ca_manager().ca_add_child(
+                        &handle,
+                        api::admin::AddChildRequest {
+                            handle: child.clone(),
+                            resources: setup::resources("", &v4, ""),
+                            id_cert,
+                        },
+                        &actor, &krill,
+                    ).map_err(|e| e.to_string())?;
+                    self.remote.insert(parent.clone(), (id_key, ca_key));
+                    Ok("ok".to_string())
+                })();
+            }
+            else {
+                let (id_key, ca_key) = self.remote[&parent];
+                let kind = ["list", "issue", "issue-limit", "revoke",
+                            "issue"][choice as usize];
+                what = format!("remote_{kind} under {parent}");
+                res = (|| {
+                    let ca = krill.ca_manager().get_ca(&handle)
+                        .map_err(|e| e.to_string())?;
+                    let class = match ca.list(
+                        &child, &krill.config().issuance_timing
+                    ) {
+                        Ok(list) => match list.classes().first() {
+                            Some(c) => c.class_name().clone(),
+                            None => return Ok("skipped: no class".into()),
+                        },
+                        Err(e) => return Ok(format!("skipped: {e}")),
+                    };
+                    let sender = idexchange::SenderHandle::from_str("remote")
+                        .unwrap();
+                    let recipient: idexchange::RecipientHandle
+                        = handle.convert();
+                    let msg = match kind {
+                        "list" => provisioning::Message::list(
+                            sender, recipient
+                        ),
+                        "revoke" => provisioning::Message::revoke(
+                            sender, recipient,
+                            RevocationRequest::new(class, ca_key),
+                        ),
+                        _ => {
+                            let repo = idexchange::RepoInfo::new(
+                                rpki::uri::Rsync::from_str(
+                                    "rsync://elsewhere.example.org/repo/r/"
+                                ).unwrap(),
+                                Some(rpki::uri::Https::from_str(
+                                    "https://elsewhere.example.org/rrdp/\
+                                     notification.xml"
+                                ).unwrap()),
+                            );
+                            let csr = krill.signer().sign_csr(
+                                &repo, "0", &ca_key
+                            ).map_err(|e| e.to_string())?;
+                            let mut limit = RequestResourceLimit::new();
+                            if kind == "issue-limit" {
+                                limit.with_ipv4(
+                                    setup::resources("", &lim4, "").ipv4()
+                                        .clone()
+                                );
+                            }
+                            provisioning::Message::issue(
+                                sender, recipient,
+                                IssuanceRequest::new(class, limit, csr),
+                            )
+                        }
+                    };
+                    let cms = krill.signer().create_rfc6492_cms(msg, &id_key)
+                        .map_err(|e| e.to_string())?;
+                    // (a refusal is an outcome, not a failure of the run)
+                    match krill.ca_manager().rfc6492(
+                        &handle, cms.to_bytes(), None, &actor, &krill
+                    ) {
+                        Ok(_) => Ok("ok".to_string()),
+                        Err(e) => Ok(format!("refused: {e}")),
+                    }
+                })();
+            }
         }
         else {
             what = "pump".into();
@@ -965,7 +1081,9 @@ impl<'a> Checker<'a> {
             // (suspension is not compared: a suspended child that calls in
             // is unsuspended implicitly)
             let kids: BTreeMap<String, String>
-                = ca.children().filter(|c| c.as_str() != crate::ca::CHILD)
+                = ca.children().filter(|c| {
+                    c.as_str() != crate::ca::CHILD && c.as_str() != "remote"
+                })
                     .map(|c| {
                 let d = ca.get_child(c).unwrap();
                 (c.to_string(), d.resources.to_string())
@@ -1251,7 +1369,7 @@ fn run_one(beh: &Value, work: &Path, out: &mut TraceOut) {
         dir: dir.clone(), env: Some(env), opts, rng: Rng::new(seed),
         cas: Vec::new(), next_ca: 1, publishers: Vec::new(), next_pub: 1,
         log: Vec::new(), memory, expect: BTreeMap::new(),
-        ca_publishers: Vec::new(),
+        ca_publishers: Vec::new(), remote: BTreeMap::new(),
     };
     let mut last_seen = BTreeMap::new();
     let mut checks = 0usize;
